@@ -107,8 +107,9 @@ class Gen(object):
             # body if (name := value) else orelse: the test is evaluated first, its walrus is visible in both arms
             nm = self.name()
             self.maybe.add(nm)
-            arm = [('r', nm, 0)] + [a for a in self.expr(0, 1) if a[0] == 'r']
-            other = [a for a in self.expr(0, 2) if a[0] == 'r']
+            # (the arms may bind names of their own: each arm is a path of its own)
+            arm = [('r', nm, 0)] + self.expr(0, 1)
+            other = self.expr(0, 2)
             if self.rng.random() < 0.5:
                 other.append(('r', nm, 0))
             return {'k': 'ifexp', 'name': nm, 'site': 0, 'body': arm, 'orelse': other}
